@@ -225,6 +225,77 @@ Theorem C08_memory_ops :
 Proof. exact memory_ops_all. Qed.
 Print Assumptions C08_memory_ops.
 
+(* ---- 3c. SHA3 (for an arbitrary hash H on byte strings; the executable model instantiates H with Lib.Keccak), the
+   environment instructions (ADDRESS ORIGIN CALLER CALLVALUE CALLDATASIZE CODESIZE GASPRICE RETURNDATASIZE COINBASE
+   TIMESTAMP NUMBER DIFFICULTY GASLIMIT PC MSIZE GAS), POP, and Interpreter.enforceRestrictions ---- *)
+Theorem C08_sha3_env :
+  (forall (H : list Z -> list Z) mem off len,
+  blen mem < 2^62 -> 0 <= off -> 0 < len -> off + len <= blen mem ->
+  op_SHA3_H H mem off len = Ok (spec_SHA3 H mem off len)) /\
+  (forall (H : list Z -> list Z) mem off, word off ->
+  op_SHA3_H H mem off 0 = Ok (spec_SHA3 H mem off 0)) /\
+  (forall (H : list Z -> list Z) mem off len v,
+  (forall d, length (H d) = 32%nat /\ Forall (fun b => 0 <= b < 256) (H d)) ->
+  op_SHA3_H H mem off len = Ok v -> word v) /\
+  (forall op e input code ret mem pc gas, env_words e ->
+  op_ENV op e input code ret mem pc gas =
+  spec_ENV op (e_address e) (e_origin e) (e_caller e) (e_callvalue e) (e_gasprice e) input code ret
+           (e_coinbase e) (e_time e) (e_number e) (e_difficulty e) (e_gaslimit e) pc (blen mem) gas) /\
+  (forall op e input code ret mem pc gas v, env_words e ->
+  blen input < 2^62 -> blen code < 2^62 -> blen ret < 2^62 -> blen mem < 2^62 ->
+  0 <= pc < two64 -> 0 <= gas < two64 ->
+  op_ENV op e input code ret mem pc gas = Some v -> word v) /\
+  (forall a st, op_POP (a :: st) = Ok st) /\
+  (forall isByz readOnly writes isCall value, word value ->
+  enforceRestrictions isByz readOnly writes isCall value = true <->
+  (isByz = true /\ readOnly = true /\ (writes = true \/ (isCall = true /\ value <> 0)))).
+Proof. exact sha3_env_all. Qed.
+Print Assumptions C08_sha3_env.
+
+(* ---- 2b. state-dependent gas: SSTORE (with refund), CALL / CALLCODE / DELEGATECALL / STATICCALL (new-account and
+   value-transfer surcharges, memory, the 63/64 cap; when the base cost exceeds the gas left the result cannot be paid),
+   SELFDESTRUCT (EIP-150 / EIP-158 variants, refund), gas-table lookups, EXTCODECOPY, CREATE ---- *)
+Theorem C08_state_gas :
+  (forall cur y, word cur -> word y ->
+  gasSStore cur y = (C_sstore cur y, R_sstore cur y)) /\
+  (forall g eip158 value empty exist w0 ms avail cost,
+  gt_ok g -> 0 < gf_CreateBySuicide g -> word value -> word cost -> 0 <= w0 < 2^32 -> 0 <= ms <= 0x1FFFFFFFE0 -> avail < two64 ->
+  let extra := C_extra (gf_Calls g) eip158 value empty exist in
+  extra + memfee w0 ms <= avail ->
+  gasCall g eip158 value empty exist (32 * w0) (Cmem w0) ms avail cost =
+    Ok (C_call extra (memfee w0 ms) avail cost, C_gascap avail (extra + memfee w0 ms) cost, Cmem (Z.max w0 (ceil32 ms)))) /\
+  (forall g eip158 value empty exist w0 ms avail cost r,
+  gt_ok g -> word value -> word cost -> 0 <= w0 < 2^32 -> 0 <= ms <= 0x1FFFFFFFE0 -> 0 <= avail < two64 ->
+  avail < C_extra (gf_Calls g) eip158 value empty exist + memfee w0 ms ->
+  gasCall g eip158 value empty exist (32 * w0) (Cmem w0) ms avail cost = Ok r -> avail < fst (fst r)) /\
+  (forall g value w0 ms avail cost,
+  gt_ok g -> 0 < gf_CreateBySuicide g -> word value -> word cost -> 0 <= w0 < 2^32 -> 0 <= ms <= 0x1FFFFFFFE0 -> avail < two64 ->
+  let extra := gf_Calls g + C_xfer value in
+  extra + memfee w0 ms <= avail ->
+  gasCallCode g value (32 * w0) (Cmem w0) ms avail cost =
+    Ok (C_call extra (memfee w0 ms) avail cost, C_gascap avail (extra + memfee w0 ms) cost, Cmem (Z.max w0 (ceil32 ms)))) /\
+  (forall g w0 ms avail cost,
+  gt_ok g -> 0 < gf_CreateBySuicide g -> word cost -> 0 <= w0 < 2^32 -> 0 <= ms <= 0x1FFFFFFFE0 -> avail < two64 ->
+  gf_Calls g + memfee w0 ms <= avail ->
+  gasDelegateCall g (32 * w0) (Cmem w0) ms avail cost =
+    Ok (C_call (gf_Calls g) (memfee w0 ms) avail cost, C_gascap avail (gf_Calls g + memfee w0 ms) cost, Cmem (Z.max w0 (ceil32 ms)))) /\
+  (gasStaticCall = gasDelegateCall) /\
+  (forall g eip150 eip158 empty exist bal already, gt_ok g ->
+  gasSuicide g eip150 eip158 empty exist bal already =
+    (C_selfdestruct (gf_Suicide g) (gf_CreateBySuicide g) eip150 eip158 empty exist bal, R_selfdestruct already)) /\
+  (forall g,
+  gasBalance g = gf_Balance g /\ gasExtCodeSize g = gf_ExtcodeSize g /\ gasSLoad g = gf_SLoad g) /\
+  (forall g memLen last ms len fee last', gt_ok g -> word len ->
+  memoryGasCost memLen last ms = Ok (fee, last') -> 0 <= fee < two64 ->
+  gasExtCodeCopy (gt_of_full g) memLen last ms len =
+    if (len <? two64) && (fee + gf_ExtcodeCopy g + 3 * ceil32 len <=? maxU64)
+    then Ok (fee + gf_ExtcodeCopy g + 3 * ceil32 len, last') else Err ErrGasUintOverflow) /\
+  (forall memLen last ms fee last',
+  memoryGasCost memLen last ms = Ok (fee, last') -> 0 <= fee < two64 ->
+  gasCreate memLen last ms = if fee + 32000 <=? maxU64 then Ok (fee + 32000, last') else Err ErrGasUintOverflow).
+Proof. exact state_gas_all. Qed.
+Print Assumptions C08_state_gas.
+
 (* ---- 4. the instruction tables of the current source are the prescribed ones; fork selection; constants ---- *)
 
 Theorem C08_table_is_spec :
@@ -289,6 +360,50 @@ Theorem C08_params_match :
   Gmid = gp_GasMidStep /\ Ghigh = gp_GasSlowStep /\ Gblockhash = gp_GasExtStep.
 Proof. exact params_match. Qed.
 Print Assumptions C08_params_match.
+
+(* the chain rules NewEVM stores and the write protection enforceRestrictions applies, observed on the code for the seven built-in configurations, are the model's *)
+Theorem C08_rules_observed :
+  forall g h t sp cp, In g gen_rules -> In (h, t, sp, cp) (gr_observed g) ->
+  rules_tuple (select_rules (rcfg_of g) h) = t /\
+  enforceRestrictions (r_byzantium (select_rules (rcfg_of g) h)) true true false 0 = sp /\
+  enforceRestrictions (r_byzantium (select_rules (rcfg_of g) h)) true false true 1 = cp.
+Proof. exact rules_observed. Qed.
+Print Assumptions C08_rules_observed.
+
+(* WHAT THE CODE DOES between HF5 and HF7 on the main network: Spring instruction set (STATICCALL, REVERT valid), HF1 gas table, pre-Byzantium rules, no write protection in read-only mode *)
+Theorem C08_mainnet_hf5_hf7_window :
+  exists g gr, mainnet_cfg = Some g /\ mainnet_rules = Some gr /\
+  forall n, 22800 <= n < 36050 ->
+    select_iset (cfg_of g) n = Spring /\
+    select_gastable (cfg_of g) n = GasTableHF1 /\
+    rules_tuple (select_rules (rcfg_of gr) n) = (true, true, false, false, false) /\
+    (forall readOnly writes isCall value,
+        enforceRestrictions (r_byzantium (select_rules (rcfg_of gr) n)) readOnly writes isCall value = false) /\
+    spec_valid Spring 0xfa = true /\ spec_valid Spring 0xfd = true /\ spec_valid Spring 0x3e = true /\ spec_valid Spring 0x1d = true.
+Proof. exact mainnet_hf5_hf7_window. Qed.
+Print Assumptions C08_mainnet_hf5_hf7_window.
+
+Theorem C08_mainnet_after_hf7 :
+  exists gr, mainnet_rules = Some gr /\
+  forall n, 36050 <= n ->
+    rules_tuple (select_rules (rcfg_of gr) n) = (true, true, true, true, true) /\
+    enforceRestrictions (r_byzantium (select_rules (rcfg_of gr) n)) true true false 0 = true.
+Proof. exact mainnet_after_hf7. Qed.
+Print Assumptions C08_mainnet_after_hf7.
+
+Theorem C08_params_match_state :
+  SstoreSetGas = gp_SstoreSetGas /\ SstoreClearGas = gp_SstoreClearGas /\ SstoreResetGas = gp_SstoreResetGas /\
+  SstoreRefundGas = gp_SstoreRefundGas /\ CallNewAccountGas = gp_CallNewAccountGas /\
+  CallValueTransferGas = gp_CallValueTransferGas /\ SuicideRefundGas = gp_SuicideRefundGas /\ CallStipend = gp_CallStipend /\
+  GasTableHomestead_full = {| gf_ExtcodeSize := gp_Homestead_ExtcodeSize; gf_ExtcodeCopy := gp_Homestead_ExtcodeCopy;
+      gf_Balance := gp_Homestead_Balance; gf_SLoad := gp_Homestead_SLoad; gf_Calls := gp_Homestead_Calls;
+      gf_Suicide := gp_Homestead_Suicide; gf_ExpByte := gp_Homestead_ExpByte; gf_CreateBySuicide := gp_Homestead_CreateBySuicide |} /\
+  GasTableHF1_full = {| gf_ExtcodeSize := gp_HF1_ExtcodeSize; gf_ExtcodeCopy := gp_HF1_ExtcodeCopy;
+      gf_Balance := gp_HF1_Balance; gf_SLoad := gp_HF1_SLoad; gf_Calls := gp_HF1_Calls;
+      gf_Suicide := gp_HF1_Suicide; gf_ExpByte := gp_HF1_ExpByte; gf_CreateBySuicide := gp_HF1_CreateBySuicide |} /\
+  gt_of_full GasTableHomestead_full = GasTableHomestead /\ gt_of_full GasTableHF1_full = GasTableHF1.
+Proof. exact params_match_state. Qed.
+Print Assumptions C08_params_match_state.
 
 (* non-vacuity: concrete words meet the hypotheses; the boundary operands give the specified results;
    the memory-gas domain and a valid jump destination behind PUSH data are inhabited *)
